@@ -322,7 +322,15 @@ class Scenario:
             self.run_all()
             node0 = newnode if getattr(newnode, "_uri", None) is not None else None
         else:
-            node0 = g.run(g.nodemaker.create_mutable_file(MutableData(initial_content), version=self.fmt))
+            try:
+                node0 = g.run(g.nodemaker.create_mutable_file(MutableData(initial_content), version=self.fmt))
+            except Exception as ex:
+                # the fault-free creation of the file the writers are to overwrite reported an error
+                consts = {"writers": [wr.name for wr in writers], "servers": sorted(g.servers), "order": sorted(g.servers),
+                          "shnums": self.shnums, "K": sp["k"], "N": sp["n"], "op": sp["op"], "fmt": sp["fmt"], "single": W == 1,
+                          "init": {name: {sh: 0 for sh in self.shnums} for name in sorted(g.servers)}}
+                return {"consts": consts, "events": [{"ev": "SetupFailed", "detail": "%s: %s" % (type(ex).__name__, str(ex)[:300])}],
+                        "meta": {"spec": {k: ([] if v is None else v) for k, v in sp.items()}, "choices": [], "seqs": {}}}
             g.drain()
             self.si = node0.get_storage_index()
             cap = node0.get_uri()
@@ -447,7 +455,7 @@ def run_mode(work, mode, n, seed, tier):
             traces += dfs_schedules(work, base, dev if tier == "quick" else dev + 1, per)
     elif mode == "single":
         for i in range(n):
-            ns = 1 + (i % 10)
+            ns = 1 + (i % 12)
             k, nn = rng.choice([(1, 1), (1, 2), (1, 3), (2, 3), (2, 4), (3, 5), (3, 10), (2, 2), (4, 6)])
             dead = [("s%d" % j) for j in range(ns) if rng.random() < rng.choice([0, 0.15, 0.4])]
             spec = {"kind": "single", "W": 1, "k": k, "n": nn, "servers": ns, "fmt": rng.choice(["SDMF", "MDMF"]),
